@@ -10,7 +10,7 @@ on binary linear block codes, which are characterized by generator and check mat
 whose elements belong to the binary field GF(2) :cite:`richardson2008modern`.
 """
 
-from typing import Any, Tuple
+from typing import Any, List, Tuple
 
 import torch
 
@@ -18,6 +18,41 @@ from kaira.models.registry import ModelRegistry
 
 from ..utils import apply_blockwise
 from .base import BaseBlockCodeEncoder
+
+
+def _gf2_row_reduce(matrix: torch.Tensor) -> Tuple[torch.Tensor, torch.Tensor, List[int]]:
+    """Reduced row echelon form over GF(2).
+
+    Args:
+        matrix: Binary matrix of shape (k, n)
+
+    Returns:
+        Tuple (R, T, pivots): R is the reduced row echelon form (its non-zero rows come first),
+        T is the invertible binary matrix with T @ matrix = R (mod 2) and pivots lists the pivot
+        column of each non-zero row of R.
+    """
+    k, n = matrix.shape
+    reduced = (matrix.to(torch.int64) % 2).clone()
+    transform = torch.eye(k, dtype=torch.int64)
+    pivots: List[int] = []
+    row = 0
+    for col in range(n):
+        if row == k:
+            break
+        candidates = torch.nonzero(reduced[row:, col], as_tuple=False).view(-1)
+        if candidates.numel() == 0:
+            continue
+        pivot = row + int(candidates[0])
+        if pivot != row:
+            reduced[[row, pivot]] = reduced[[pivot, row]]
+            transform[[row, pivot]] = transform[[pivot, row]]
+        for other in range(k):
+            if other != row and reduced[other, col] != 0:
+                reduced[other] = (reduced[other] + reduced[row]) % 2
+                transform[other] = (transform[other] + transform[row]) % 2
+        pivots.append(col)
+        row += 1
+    return reduced, transform, pivots
 
 
 def compute_null_space_matrix(matrix: torch.Tensor) -> torch.Tensor:
@@ -78,58 +113,16 @@ def compute_null_space_matrix(matrix: torch.Tensor) -> torch.Tensor:
             # Convert back to original dtype before returning
             return H.to(matrix.dtype)
 
-    # If systematic form wasn't detected or verification failed, use SVD
-    U, S, V = torch.linalg.svd(matrix_float, full_matrices=True)
-
-    # Count non-zero singular values with small tolerance
-    tol = S.max() * max(matrix.size()) * torch.finfo(matrix_float.dtype).eps
-    rank = torch.sum(S > tol).item()
-
-    # The null space is spanned by the right singular vectors
-    # corresponding to the zero singular values
-    if rank < V.size(1):
-        null_space = V[rank:].clone()
-
-        # In GF(2), we need to ensure each element is binary
-        # Round to the nearest binary value
-        null_space = (null_space.abs() > 0.5).float()
-
-        # Ensure we have linearly independent rows
-        # and the result satisfies GH^T = 0
-        if null_space.size(0) > 0:
-            # Remove linearly dependent rows
-            reduced_null_space = torch.zeros((min(n - k, null_space.size(0)), n), dtype=matrix.dtype)
-            row_idx = 0
-
-            for i in range(null_space.size(0)):
-                # Check if current row is linearly independent from existing rows
-                if row_idx == 0 or not torch.all(torch.matmul(null_space[i], reduced_null_space[:row_idx].t().float()) % 2 == 0):
-                    if row_idx < reduced_null_space.size(0):
-                        reduced_null_space[row_idx] = null_space[i]
-                        row_idx += 1
-
-                # If we've found enough rows, we can stop
-                if row_idx == n - k:
-                    break
-
-            # Verify that the null space satisfies GH^T = 0
-            verification = torch.matmul(matrix_float, reduced_null_space.t()) % 2
-            if torch.all(verification < 0.01):  # Allow small numerical error
-                return reduced_null_space[:row_idx]
-
-    # If all else fails, fall back to a direct construction for common cases
-
-    # Repetition codes: generator matrix is a single row of all ones
-    if k == 1 and torch.all(matrix == 1.0):
-        # For a repetition code, check matrix verifies adjacent bits are equal
-        H = torch.zeros((n - 1, n), dtype=matrix.dtype)
-        for i in range(n - 1):
-            H[i, i] = 1.0
-            H[i, i + 1] = 1.0
-        return H
-
-    # If we couldn't find a valid null space, return an empty matrix
-    return torch.zeros((n - k, n), dtype=matrix.dtype)
+    # General case: exact Gaussian elimination over GF(2)
+    reduced, transform, pivots = _gf2_row_reduce(matrix)
+    free_columns = [j for j in range(n) if j not in pivots]
+    null_space = torch.zeros((len(free_columns), n), dtype=matrix.dtype)
+    for row_idx, free_col in enumerate(free_columns):
+        null_space[row_idx, free_col] = 1
+        for pivot_row, pivot_col in enumerate(pivots):
+            if reduced[pivot_row, free_col] != 0:
+                null_space[row_idx, pivot_col] = 1
+    return null_space
 
 
 def compute_reduced_row_echelon_form(matrix: torch.Tensor) -> torch.Tensor:
